@@ -63,7 +63,7 @@ P("C18", "contract monitor: quadrature of the EI definition, branch-reach counte
   "trusts scipy.integrate.quad on a smooth, factored integrand", "DESIGN.md §5 C18")
 P("C19", "contract monitor: high-accuracy quadrature of the estimator's own pdf; metamorphic shift/scale re-runs",
   "For GaussianKDE and UnimodalPdf fitted to seeded samples: unit normalisation, cdf = integral of pdf, interval mass and end-density equality (fractions 0.05-0.99, UnimodalPdf also to 0.9995), mode optimality, moments vs centred quadrature, and covariance under shift/scale.",
-  "UnimodalPdf re-fits are compared at optimiser accuracy; a KDE mode that is only the best point of its sample-derived search bracket, and an interval search that stalls with an end in an empty region (f >= 0.99), are recorded known findings", "DESIGN.md §5 C19")
+  "UnimodalPdf re-fits are compared at optimiser accuracy; a KDE mode that is only the best point of its sample-derived search bracket, an interval search that stalls with an end in an empty region, and one that stops before convergence, are recorded known findings; intervals are not judged for KDEs with a cross-validated bandwidth nor where a KDE interval end sits on a tail bump (plateau clause, counted)", "DESIGN.md §5 C19")
 P("C20", "contract monitor: exact piecewise-quadratic CDF (PIT/KS + chi-square), true-conditional comparison on the grid",
   "piecewise_linear_sample draws are tested against the exact CDF of the tabulated piecewise-linear density on uniform and non-uniform grids; get_conditionals output is checked for normalisation, proportionality to the true conditional, coverage of the high-density region and containment; conditional_sample for containment.",
   "module RNG is seeded; KS/chi-square at family-wise 1e-6 with two-stage confirmation", "DESIGN.md §5 C20")
